@@ -490,7 +490,7 @@ def make_jobs(ctx, n_explicit, n_contingent, n_dom_trials):
 
 def run(ctx):
     q = ctx.quick
-    n_explicit, n_contingent, n_dom = (50, 40, 2) if q else (300, 300, 3)
+    n_explicit, n_contingent, n_dom = (50, 40, 2) if q else (250, 250, 3)
     jobs = make_jobs(ctx, n_explicit, n_contingent, n_dom)
     with Pool(POOL, initializer=_warm) as pool:
         recs = pool.map(worker, jobs, chunksize=2)
